@@ -30,33 +30,71 @@ def plan(tier, seed):
 
 
 def run_shard(spec, shard):
+    # One long-lived environment per shard also receives every rejected mutant and some garbage, so that
+    # "accepted" is checked after hundreds of failed compilations on the same environment, not only on a
+    # pristine one.
+    from vlib import lib
+    from vlib.gen import mutate
+    shared = lib.make_env()
+
     def body(r):
         ast, text, used = accept.base_query(r, shard)
         forms = {u for u in used if ":" not in u}
-        _one(shard, text, "generated", forms)
-        for _ in range(2):
+        _one(shard, text, "generated", forms, shared)
+        for _ in range(3):
             m, kinds = M.mutant(text, r)
             v, _, _ = accept.verdict(m)
             if v == "VALID-WELLTYPED" and m != text:
-                _one(shard, m, "valid-mutant", {"mutant"} | set("edit:" + k for k in kinds))
+                _one(shard, m, "valid-mutant", {"mutant"} | set("edit:" + k for k in kinds), shared)
             elif v == "EXCLUDED-R":
                 shard.excluded["R:function-argument-starting-with-!-or-("] += 1
+            else:
+                lib.compile_(m, shared)
+                shard.notes["rejected-mutants-compiled-on-the-shared-environment"] += 1
+        lib.compile_(mutate.token_sequence(r), shared)
+        # truncations leave brackets, parentheses, strings and calls open at the point of failure
+        for _ in range(4):
+            cut = r.randrange(1, len(text) + 1)
+            lib.compile_(text[:cut] + r.choice(["", "]", ")", " ", "&&", "'"]), shared)
+            shard.notes["truncations-compiled-on-the-shared-environment"] += 1
+        # bracket-balanced damage (the lexer accepts it, the parser fails in the middle of a nested construct)
+        opens = [i for i, c in enumerate(text) if c == "("] or [i for i, c in enumerate(text) if c in "[,"]
+        for _ in range((12 if "(" in text else 4) if opens else 0):
+            i = r.choice(opens)
+            js = [j for j in range(i + 1, len(text)) if text[j] in "@$0123456789tfn*"]
+            if js:
+                j = js[0] if r.random() < 0.7 else r.choice(js)
+                lib.compile_(text[:j] + r.choice(["&&", "==", "||", "<", ",", "!", ":"]) + text[j + 1:], shared)
+                shard.notes["balanced-damage-compiled-on-the-shared-environment"] += 1
 
     drive(rng(), spec["n"], spec["seed"], body)
 
 
-def _one(shard, text, origin, forms):
+def _one(shard, text, origin, forms, shared=None):
     case = {"q": text}
     shard.case(key=text, nontrivial=bool(forms), classes={origin} | {"form:" + f for f in forms},
                sample={"q": text, "origin": origin})
     f = examine(case)
     if f:
         shard.fail(f["bucket"], case, f, size=len(text))
+    elif shared is not None:
+        from vlib import lib
+        status, got = lib.compile_(text, shared)
+        if status != "ok":
+            f2 = {"bucket": f"refused-after-history:{got['type']}:{got['frame']}",
+                  "what": f"valid query {text!r} compiles on a fresh environment but is refused on an environment that has "
+                          f"compiled {shard.evaluations} queries before (many of them invalid): {got['type']}: {got['str']}",
+                  "expected": "compile() returns", "observed": got}
+            shard.fail(f2["bucket"], dict(case, history="shared-environment"), f2, size=len(text))
 
 
 def minimise(case, failure, tier):
+    if case.get("history"):
+        return case, failure   # depends on the shard's history, not on the text alone
     return accept.minimise_text(case, failure, examine)
 
 
 def signature(case, failure):
+    if case.get("history"):
+        return f"C03:{failure['bucket']}"
     return f"C03:{failure['bucket']}:{diff.shape(case['q'])}"
